@@ -109,6 +109,11 @@ def run_strfunc(ev, fnode, env):
             return not e(n.operand, env)
         if isinstance(n, ast.Name) and n.id in env:
             return env[n.id]
+        if isinstance(n, ast.Name):
+            try:
+                return ev.folder.eval(n, ev.mod)
+            except Exception:
+                raise ME.Unsupported(src(n))
         if isinstance(n, (ast.Tuple, ast.List)):
             return tuple(e(x, env) for x in n.elts)
         if isinstance(n, ast.Constant):
